@@ -578,4 +578,21 @@ def template_schemas(rng, with_signers):
         # the shared pattern is the highest-numbered named pattern; temporaries next to it
         out.append({'rules': [R('#pkt', [L('L0'), P(p1), P(p2), P('_')], None, [k1]), R(k1, [L('L1'), P(p1), P(p2)], None, [k2]),
                               R(k2, [L('L2'), P('_'), P(p2)])]})
+    if not with_signers:
+        # alternatives of ONE rule that bind the same pattern names to different components of one name
+        out.append({'rules': [R('#pair', [P(p1), P('_')]), R('#pair', [P('_'), P(p1)]), R('#trio', [L(a), P(p1), P(p2), P('_')]),
+                              R('#trio', [L(a), P(p2), P('_'), P(p1)]), R('#trio', [L(a), P('_'), P(p1), P(p2)])]})
+    # more than ten distinct named patterns in one schema (pattern numbers with two digits), spread over short rules; every group
+    # of patterns carries a relation of its own, so whichever group the compiler numbers last is exercised
+    many = ['q%02d' % i for i in rng.sample(range(40), 15)]
+    g1, g2, g3 = many[:5], many[5:10], many[10:]
+    if not with_signers:
+        out.append({'rules': [R('#w%d' % j, [L(t)] + [P(x) for x in g[:4]], [[(g[3], [P(g[2])]), (g[0], [P(g[1]), L(b)])]]) for j, (t, g) in enumerate(((a, g1), (b, g2), (c, g3)))] +
+                             [R('#t%d' % j, [L(t), P(g[4]), P(g[0]), P(g[4]), L(a)]) for j, (t, g) in enumerate(((a, g1), (b, g2), (c, g3)))]})
+    else:
+        out.append({'rules': [R('#p%d' % j, [L('L0'), L(t)] + [P(x) for x in g[:4]], None, ['#k%d' % j]) for j, (t, g) in enumerate(((a, g1), (b, g2), (c, g3)))] +
+                             [R('#k%d' % j, [L('L1'), L(t), P(g[3]), P(g[0])], None, ['#root']) for j, (t, g) in enumerate(((a, g1), (b, g2), (c, g3)))] +
+                             [R('#root', [L('L2')])]})
+        out.append({'rules': [R('#p%d' % j, [L('L0'), L(t), P(g[0]), P(g[1]), P(g[2])], None, ['#k%d' % j]) for j, (t, g) in enumerate(((a, g1), (b, g2), (c, g3)))] +
+                             [R('#k%d' % j, [L('L1'), L(t), P(g[3]), P(g[4])], [[(g[3], [P(g[1]), L(a)]), (g[4], [P(g[2])])]]) for j, (t, g) in enumerate(((a, g1), (b, g2), (c, g3)))]})
     return out
